@@ -241,7 +241,28 @@ def st_tables(ctx):
     expect_flag(ctx, "tables", "TablesTrace", r2, "C20", "a syscall name added to a normalisation", xss="256m")
 
 
-FAMILIES = [("reassembler", st_reassembler), ("conc", st_conc), ("client", st_client), ("netlink", st_netlink), ("rule", st_rule),
+def st_normalize(ctx):
+    """Beyond the list (DESIGN section 10): the normalisation interpreter is bound as well."""
+    prefix = ctx.path("st", "nz")
+    ctx.driver_json(["normalize-run", "--out-prefix", prefix, "--shards", 1, "--seed", ctx.seed, "--reps", 1, "--repo", core.REPO])
+    recs = load(prefix + "0.ndjson")
+    table = [r for r in recs if r.get("k") in ("meta", "norm")]
+    evs = [r for r in recs if r.get("k") == "nev"][:60]
+    expect_clean(ctx, "normalize", "NormalizeTrace", table + evs, ["X-NORMALIZE"], xss="64m")
+    r1 = copy.deepcopy(table + evs)
+    i = next(i for i, r in enumerate(r1) if r.get("k") == "nev" and r["got"]["action"])
+    r1[i]["got"]["action"] += "x"
+    expect_flag(ctx, "normalize", "NormalizeTrace", r1, "X-NORMALIZE", "the action of an event", xss="64m")
+    r2 = copy.deepcopy(table + evs)
+    j = next(j for j, r in enumerate(r2) if r.get("k") == "norm" and r["subject_primary"])
+    r2[j]["subject_primary"] = list(reversed(r2[j]["subject_primary"])) + ["pid"]
+    t = r2[j]["record_types"] + r2[j]["syscalls"]
+    k = [r for r in recs if r.get("k") == "nev" and any(x["type"] in t or x["data"].get("syscall") in t for x in r["recs"])][:40]
+    expect_flag(ctx, "normalize", "NormalizeTrace", [r for r in r2 if r.get("k") != "nev"] + k, "X-NORMALIZE",
+                "the order of an entry's subject_primary fields", xss="64m")
+
+
+FAMILIES = [("normalize", st_normalize), ("reassembler", st_reassembler), ("conc", st_conc), ("client", st_client), ("netlink", st_netlink), ("rule", st_rule),
             ("parse", st_parse), ("coalesce", st_coalesce), ("tables", st_tables)]
 
 
